@@ -1,6 +1,8 @@
 import GqlVerif.Props.C14
 import GqlVerif.Proofs.ComposedC14
 import GqlVerif.Proofs.SerdeFuelWitness
+import GqlVerif.Proofs.C14GeneratedWitness
+import GqlVerif.Proofs.C14GeneratedFragWitness
 open GqlVerif.C14
 #print axioms dep_table
 #print axioms never_omitted_unless_denied
@@ -28,3 +30,37 @@ open GqlVerif.C14
 #print axioms GqlVerif.SerdeFuel.denied_key_ignored_de_of_nf
 #print axioms GqlVerif.SerdeFuel.denied_key_not_ignored_without_rank
 #print axioms GqlVerif.SerdeFuel.denyEnv_denied_key_ignored
+-- a denied field's key is ignored, for every emitted module of the classes and at every depth (Proofs/C14Generated*.lean)
+#print axioms GqlVerif.C14G.keyFreeCheck_sound
+#print axioms GqlVerif.C14G.keyFreeCheck_complete
+#print axioms GqlVerif.C14G.keyFreeCheck_iff
+#print axioms GqlVerif.C14G.mem_reachSet_iff
+#print axioms GqlVerif.C14G.swap_dePath
+#print axioms GqlVerif.C14G.sim_sound
+#print axioms GqlVerif.C14G.sim_de
+#print axioms GqlVerif.C14G.sim_de_of_nf
+#print axioms GqlVerif.C14G.treeOpD_of_treeOp
+#print axioms GqlVerif.C14G.tree_items_shapeD
+#print axioms GqlVerif.C14G.fieldsOfD_wires
+#print axioms GqlVerif.C14G.denied_field_keyFree
+#print axioms GqlVerif.C14G.unselected_key_keyFree
+#print axioms GqlVerif.C14G.kept_key_not_keyFree
+#print axioms GqlVerif.C14G.not_kept_of_nodup_respKeys
+#print axioms GqlVerif.C14G.denied_field_payload_same'
+#print axioms GqlVerif.C14G.denied_field_payload_same
+#print axioms GqlVerif.C14G.denied_field_payload_same_dePath
+#print axioms GqlVerif.C14G.tree_module_acyclic
+#print axioms GqlVerif.C14G.tree_module_envOK
+#print axioms GqlVerif.C14G.tree_de_never_out_of_fuel
+#print axioms GqlVerif.C14G.frag_items_shapeD
+#print axioms GqlVerif.C14G.frag_struct_shapeD
+#print axioms GqlVerif.C14G.fragOpD_of_treeOpD
+#print axioms GqlVerif.C14G.fragnode_keyFree
+#print axioms GqlVerif.C14G.denied_field_keyFree_frag
+#print axioms GqlVerif.C14G.collected_key_not_keyFree
+#print axioms GqlVerif.C14G.denied_field_payload_same_frag
+-- instances and necessity witnesses
+#print axioms GqlVerif.C14G.Witness.w_instance
+#print axioms GqlVerif.C14G.Witness.sibling_key_matters
+#print axioms GqlVerif.C14G.Witness.dead_struct_emitted
+#print axioms GqlVerif.C14G.FragWitness.f_instance
